@@ -634,10 +634,43 @@ macro_rules! c08_dfs_events {
                     });
                     (ev, r.map(|c| c.break_value().is_some()))
                 };
+                // the same visitor returning Result<Control<_>, E>: Ok(c) must act like c, Err(e) like Break
+                let run_res = |script: &Script, err_mode: bool| -> (Vec<Ev>, Result<bool, String>) {
+                    let mut ev: Vec<Ev> = vec![];
+                    let r = $crate::guard::guarded(|| {
+                        depth_first_search(g, starts.iter().map(|&s| enc.id(s)), |e| -> Result<Control<usize>, usize> {
+                            let k = ev.len();
+                            ev.push(match e {
+                                DfsEvent::Discover(u, Time(t)) => Ev::Discover(enc.abs(u), t),
+                                DfsEvent::TreeEdge(u, v) => Ev::Tree(enc.abs(u), enc.abs(v)),
+                                DfsEvent::BackEdge(u, v) => Ev::Back(enc.abs(u), enc.abs(v)),
+                                DfsEvent::CrossForwardEdge(u, v) => Ev::Cross(enc.abs(u), enc.abs(v)),
+                                DfsEvent::Finish(u, Time(t)) => Ev::Finish(enc.abs(u), t),
+                            });
+                            match act_at(script, k) {
+                                Act::Continue => Ok(Control::Continue),
+                                Act::Prune => Ok(Control::Prune),
+                                Act::Break => if err_mode { Err(k) } else { Ok(Control::Break(k)) },
+                            }
+                        })
+                    });
+                    (ev, r.map(|c| match c { Ok(c) => c.break_value().is_some(), Err(_) => true }))
+                };
+                let same_as_bare = |ctx: &mut $crate::e2::Ctx, sc: &Script, bare: &(Vec<Ev>, Result<bool, String>)| {
+                    for err_mode in [false, true] {
+                        ctx.calls += 1;
+                        let got = run_res(sc, err_mode);
+                        let same = got.0 == bare.0 && match (&got.1, &bare.1) { (Ok(a), Ok(b)) => a == b, (Err(_), Err(_)) => true, _ => false };
+                        if !same {
+                            ctx.viol("depth_first_search", "a visitor returning Result<Control, E> is not treated like the same visitor returning Control (Ok(c) as c, Err as Break)", format!("{} starts {:?} script {:?} (Break as {}) got {:?} {:?} want {:?} {:?}", desc(), starts, sc, if err_mode { "Err" } else { "Ok(Break)" }, got.0, got.1, bare.0, bare.1));
+                        }
+                    }
+                };
                 let base: Script = vec![];
                 $ctx.calls += 1;
                 let (ev, r) = run(&base);
                 $ctx.mix(&ev);
+                same_as_bare($ctx, &base, &(ev.clone(), r.clone()));
                 match r {
                     Err(m) => $ctx.viol("depth_first_search", &format!("panic: {}", $crate::guard::panic_class(&m)), format!("{} starts {:?}: {}", desc(), starts, m)),
                     Ok(broke) => {
@@ -672,6 +705,7 @@ macro_rules! c08_dfs_events {
                     for sc in &scripts {
                         $ctx.calls += 1;
                         let (ev, r) = run(sc);
+                        same_as_bare($ctx, sc, &(ev.clone(), r.clone()));
                         let (rev, rbroke, rpanic) = ref_dfs(&nb, starts, sc);
                         match r {
                             Err(m) => {
